@@ -177,3 +177,16 @@ PROPS["C10"] = {
     "chunk": 400,
 }
 MANIFEST_TEXT["C10"] = {"level": "todo", "note": "todo", "technique": "TLA+ Find (descent) vs the engine's cursor walk (TauDoc), TLC; every document shape x path replayed on four representations; TLC trace validation"}
+
+PROPS["C08"] = {
+    "title": "List quantifiers count the members the author wrote",
+    "models": lambda tier: [
+        {"module": "MC_Quant", "constants": {"MaxK": q(tier, 3, 5)},
+         "invariants": ["CountLaw", "Emit"],
+         "forms": ["key_plain", "key_all", "key_of", "seq_all", "seq_of", "idl_all", "idl_of"], "workers": 8},
+    ],
+    "gens": lambda tier: [{"topic": "quant", "n": q(tier, 500, 10000)}],
+    "rules": ["oracle", "den", "alt_fails", "load_outcome", "match_panic"],
+    "chunk": 500,
+}
+MANIFEST_TEXT["C08"] = {"level": "todo", "note": "todo", "technique": "TLA+ count semantics (TauLang) and the law quantified = explicit form, TLC; both forms replayed as one case with one denotation; TLC trace validation"}
